@@ -32,7 +32,7 @@ Section Become.
     (forall w T' c kw rq, In (w, T', c, kw, rq) Vn -> w = i /\ T' = v_term sL /\ c = i /\ uptodate rq kw /\ (kw = (0, 0) \/ created C kw)) ->
     (forall w T' c, In (w, T', c) Gn -> exists kw rq, In (w, T', c, kw, rq) (Vn ++ V)) ->
     (forall T' c, live sL = Some (T', c) -> (exists kw rq, In (i, T', c, kw, rq) (Vn ++ V)) \/ (exists c' tl', In (T', c', tl') LL)) ->
-    exists C' LL' A', cinv cfg Ps g' C' LL' A' (Vn ++ V).
+    exists Cn LLn An, cinv cfg Ps g' (Cn ++ C) (LLn ++ LL) (An ++ A) (Vn ++ V).
   Proof.
     intros HI Hf Hr Hk Hvk Hrole Hvt Hdts HT1 Hfresh Hnodes Hg' Hmsgs Hans Hld Hgr Hleads Hlv Hva Hvn Hgv Hlive.
     destruct (find_node_in _ _ _ Hf) as [Hin Hid].
@@ -89,7 +89,7 @@ Section Become.
     assert (Hcn2 : cnode_up cfg Ps s2).
     { apply (append_cnode_up cfg Ps sL s2 e HcL); auto. intros Hc. discriminate. }
     assert (Hee : d_log s2 !! e_idx e = Some e) by (rewrite Dl, log_store_one, N.eqb_refl; reflexivity).
-    exists ((e, ck) :: C), ((T, i, ck) :: LL), ((i, key e) :: A).
+    exists [(e, ck)], [(T, i, ck)], [(i, key e)].
     apply (cinv_update cfg Ps HVn g g' C [(e, ck)] LL [(T, i, ck)] A [(i, key e)] V Vn i n n' HI Hf Hid Hnodes) with (mn := []) (an := []) (Gn := Gn).
     - unfold dtn. rewrite Hr. cbn [n' gn_run image]. lia.
     - exact Hl''.
